@@ -48,9 +48,11 @@ SBodies == {Rule("", "allow", {"a1"}, {"a3"}, {"sg1"}, ""), Rule("", "allow", {"
 SMembers == {{"s80"}, {"s80", "s53"}, {"s53", "s22"}}
 AddrVal2 == [AddrVal EXCEPT !["a1"] = "10.9.9.1/32"]
 SvcVal2  == [SvcVal EXCEPT !["s80"] = "tcp/8080"]
+\* the device's service restricts the source port (element nested in <tcp>): same name, same port, other traffic
+SvcVal3  == [SvcVal EXCEPT !["s80"] = "tcp/80/sp"]
 UsedS(rs) == {n \in {"sg1"} : \E i \in DOMAIN rs : n \in rs[i].svc}
 P3 ==
-  \E a \in InjSeqs(SBodies, 2), b \in InjSeqs(SBodies, 2), sa, sb \in SMembers, av \in {AddrVal, AddrVal2}, sv \in {SvcVal, SvcVal2} :
+  \E a \in InjSeqs(SBodies, 2), b \in InjSeqs(SBodies, 2), sa, sb \in SMembers, av \in {AddrVal, AddrVal2}, sv \in {SvcVal, SvcVal2, SvcVal3} :
     /\ dev = Cfg(Named(a, DevNames), NoFn, [n \in UsedS(a) |-> sa], av, sv)
     /\ tgt = Cfg(Named(b, TgtNames), NoFn, [n \in UsedS(b) |-> sb], AddrVal, SvcVal)
 
